@@ -168,16 +168,28 @@ func (p *Program) Func(pkgPath, name string) *ssa.Function {
 		return nil
 	}
 	var found *ssa.Function
+	ambiguous := false
 	for _, f := range p.SrcFuncs(pkgPath) {
 		if f.Parent() == nil && SigKey(f) == want {
 			if found != nil {
-				return nil // ambiguous
+				ambiguous = true
 			}
 			found = f
 		}
 	}
-	return found
+	if found != nil && !ambiguous {
+		return found
+	}
+	// neither the name nor the signature: identify the function by what it does
+	if rf, ok := RoleFinders[pkgPath+"."+name]; ok {
+		return rf(p)
+	}
+	return nil
 }
+
+// RoleFinders identify unexported helpers structurally (by their effect) when they were renamed and their signature
+// changed; registered by the rules that need them.
+var RoleFinders = map[string]func(p *Program) *ssa.Function{}
 
 func (p *Program) funcByName(pkgPath, name string) *ssa.Function {
 	sp := p.SSAPkg[pkgPath]
